@@ -309,6 +309,11 @@ def _ctor_table():
     add('IndexHierarchy.from_index_items(typed(ia))', lambda a, ia, ca: sf.IndexHierarchy.from_index_items([('p', _typed(ia)(ia))]))
     add('series.relabel(typed(ia))', lambda a, ia, ca: sf.Series(a).relabel(_typed(ia)(ia)))
     add('series.reindex(ia, index_constructor)', lambda a, ia, ca: sf.Series(a, index=ia, index_constructor=_typed(ia)).reindex(ia))
+    # options that convert only some of the fields: the others must still not be views of the caller's array
+    add('Frame.from_structured_array(dtypes={y})', lambda a, ia, ca: _from_structured(a, dtypes={'y': np.float32}))
+    add('Frame.from_structured_array(dtypes=(None,f))', lambda a, ia, ca: _from_structured(a, dtypes=(None, np.float32)))
+    add('Frame.from_structured_array(index_depth=1,dtypes={y})', lambda a, ia, ca: _from_structured(a, index_depth=1, dtypes={'y': np.float32}))
+    add('Frame.from_structured_array(index_depth=1)', lambda a, ia, ca: _from_structured(a, index_depth=1))
     return T
 
 
@@ -339,11 +344,13 @@ def _go_extend(a, ia):
     return f
 
 
-def _from_structured(a):
+def _from_structured(a, **kw):
     sa = np.zeros(len(a), dtype=[('x', a.dtype if a.dtype.kind != 'O' else float), ('y', float)])
     if a.dtype.kind != 'O':
         sa['x'] = a
-    f = sf.Frame.from_structured_array(sa)
+    if kw.get('index_depth'):
+        sa['x'] = np.arange(len(a)).astype(sa.dtype['x']) if sa.dtype['x'].kind in 'iuf' else sa['x']
+    f = sf.Frame.from_structured_array(sa, **kw)
     _from_structured.last = sa
     return f
 
@@ -437,7 +444,7 @@ def check_caller(case):
     s0 = obs.snap(c)
     assert_frozen(c, name)
     wrote = [_scramble(x) for x in bases]
-    if name == 'Frame.from_structured_array':
+    if name.startswith('Frame.from_structured_array'):
         sa = _from_structured.last
         if sa.flags.writeable:
             sa['y'] += 5
